@@ -53,6 +53,11 @@ use thiserror::Error;
 #[derive(Clone)]
 pub struct ActionRegistry {
     table_actions: hashbrown::HashMap<String, TableAction>,
+    /// Registrations displaced by a later table of the same name. An e-graph
+    /// and its clones share one registry and each may declare its own table
+    /// under a name; [`ActionRegistry::lookup_live_table`] picks the one a
+    /// given execution state actually has.
+    shadowed_actions: hashbrown::HashMap<String, Vec<TableAction>>,
     union_action: UnionAction,
     default_panic_id: ExternalFunctionId,
 }
@@ -61,13 +66,38 @@ impl ActionRegistry {
     pub(crate) fn new(union_action: UnionAction, default_panic_id: ExternalFunctionId) -> Self {
         Self {
             table_actions: hashbrown::HashMap::new(),
+            shadowed_actions: hashbrown::HashMap::new(),
             union_action,
             default_panic_id,
         }
     }
 
     pub(crate) fn register_table(&mut self, name: String, action: TableAction) {
-        self.table_actions.insert(name, action);
+        let identity = action.identity;
+        if let Some(prev) = self.table_actions.insert(name.clone(), action)
+            && prev.identity != identity
+        {
+            let shadowed = self.shadowed_actions.entry(name).or_default();
+            shadowed.retain(|a| a.identity != prev.identity && a.identity != identity);
+            shadowed.push(prev);
+        }
+    }
+
+    /// Look up the [`TableAction`] registered under `name` for the table that
+    /// `state` actually has: the latest registration if it is live there, and
+    /// otherwise an earlier one that a later declaration — made by a clone of
+    /// the e-graph, which shares this registry — has displaced.
+    pub fn lookup_live_table(&self, name: &str, state: &ExecutionState) -> Option<&TableAction> {
+        self.table_actions
+            .get(name)
+            .filter(|action| action.is_live(state))
+            .or_else(|| {
+                self.shadowed_actions
+                    .get(name)?
+                    .iter()
+                    .rev()
+                    .find(|action| action.is_live(state))
+            })
     }
 
     /// Look up the [`TableAction`] for a table by name, or `None` if
@@ -84,6 +114,11 @@ impl ActionRegistry {
     pub fn table_sizes(&self, state: &ExecutionState) -> Vec<(&str, usize)> {
         self.table_actions
             .iter()
+            .chain(
+                self.shadowed_actions
+                    .iter()
+                    .flat_map(|(name, actions)| actions.iter().map(move |action| (name, action))),
+            )
             .filter(|(_, action)| action.is_live(state))
             .map(|(name, action)| (name.as_str(), action.row_count(state)))
             .collect()
